@@ -784,6 +784,22 @@ func (sx *c29SX) step(p *c29Path) *c29Fork {
 		} else {
 			t := "slice(" + b.t + "," + lo + "," + hi + ")"
 			p.sub[t] = [3]string{b.t, lo, hi}
+			// constant bounds give a constant length
+			l, e1 := strconv.ParseInt(lo, 10, 64)
+			if lo == "" {
+				l, e1 = 0, nil
+			}
+			u, e2 := strconv.ParseInt(hi, 10, 64)
+			if hi == "" {
+				if n, ok := p.byteLen(b.t); ok {
+					u, e2 = n, nil
+				} else if bl, ok := p.lenOf[b.t]; ok && bl.num {
+					u, e2 = bl.n, nil
+				}
+			}
+			if e1 == nil && e2 == nil && u >= l {
+				p.lenOf[t] = c29V{t: strconv.FormatInt(u-l, 10), n: u - l, num: true}
+			}
 			f.env[x] = c29V{t: t, nn: b.nn}
 		}
 	case *ssa.UnOp:
@@ -1083,6 +1099,12 @@ func (sx *c29SX) call(p *c29Path, f *c29Frame, ci ssa.CallInstruction) *c29Fork 
 		case "builtin:len", "builtin:cap":
 			if l, ok := p.lenOf[args[0].t]; ok && name == "builtin:len" {
 				set(p.conc(l))
+				return next()
+			}
+			// a slice of a whole array allocated here ([]T{...} literals, make with a
+			// constant size) has that array's length
+			if n, ok := p.byteLen(args[0].t); ok {
+				set(c29V{t: strconv.FormatInt(n, 10), n: n, num: true})
 				return next()
 			}
 			t := atyp[0].Underlying()
